@@ -186,12 +186,20 @@ def h_response(ctx, idx, outcome):
     else:
         ctx.observe("text", s)
     # ---- derived convenience properties must not raise on clean frames
+    derived = False
     if outcome == "clean":
         for attr in ("fade_time", "fade_rate", "mode", "control_type", "primary_n", "error"):
             if isinstance(getattr(cls, attr, None), property):
                 st, x = call(getattr, r, attr)
                 ctx.prove(st == "ok", "%s raised %r on a clean frame" % (attr, x),
                           key=tag + "/derived:" + attr)
+                derived = True
+        if derived and base is C.BitmapResponse:
+            # reading a convenience property is a read: the bits are still all there afterwards
+            _bitmap(ctx, cls, r, raw, v, outcome, tag + "/after-derived")
+    if raw is not None:
+        ctx.prove(r.raw_value is raw and E.eq(raw.as_integer, v) and bool(raw.error) == (outcome == "error"),
+                  "the frame passed in was modified by reading the response", key=tag + "/raw-modified")
     return "%s %s" % (outcome, label)
 
 
